@@ -185,15 +185,45 @@ func c03FreshCopies(r *an.Run) {
 			continue
 		}
 		for _, ret := range an.Returns(f) {
-			if len(ret.Results) != 2 || !an.IsNilConst(ret.Results[1]) {
+			if len(ret.Results) != 2 {
+				continue
+			}
+			// `return helper(...)`: value and error of one private helper call; the helper must allocate
+			var viaHelper *ssa.Function
+			if e0, ok := ret.Results[0].(*ssa.Extract); ok {
+				if e1, ok := ret.Results[1].(*ssa.Extract); ok && e0.Tuple == e1.Tuple {
+					if c, ok := e0.Tuple.(*ssa.Call); ok {
+						if h := an.StaticCallee(c); h != nil && an.InModule(h) && h.Blocks != nil {
+							viaHelper = h
+						}
+					}
+				}
+			}
+			if viaHelper == nil && !an.IsNilConst(ret.Results[1]) {
 				continue // error return
 			}
 			n++
 			fresh := false
-			for v := range an.BackSlice(ret.Results[0], an.SliceOpts{ThroughCalls: true}) {
-				if c, ok := v.(*ssa.Call); ok && an.IsCallTo(c, "reflect.New", "reflect.MakeSlice", "reflect.Zero") {
-					fresh = true
+			allocates := func(v ssa.Value) bool {
+				for x := range an.BackSlice(v, an.SliceOpts{ThroughCalls: true}) {
+					if c, ok := x.(*ssa.Call); ok && an.IsCallTo(c, "reflect.New", "reflect.MakeSlice", "reflect.Zero") {
+						return true
+					}
 				}
+				return false
+			}
+			if viaHelper != nil {
+				fresh = true
+				for _, hr := range an.Returns(viaHelper) {
+					if len(hr.Results) == 2 && an.IsNilConst(hr.Results[1]) && !allocates(hr.Results[0]) {
+						fresh = false
+					}
+				}
+			} else {
+				fresh = allocates(ret.Results[0])
+			}
+			if false {
+				_ = fresh
 			}
 			r.Check(fresh, short(f)+"|allocates", ret.Pos(), "%s returns a value allocated in this call (reflect.New / MakeSlice / Zero): every site gets its own node", short(f))
 		}
@@ -353,6 +383,30 @@ func c03PerSiteBindings(r *an.Run) {
 				if fieldOfElem(v, name) {
 					got[name] = true
 				}
+			}
+			// the slot may be computed by a private helper from the match itself: helper(m)
+			if c, ok := v.(*ssa.Call); ok {
+				if h := an.StaticCallee(c); h != nil && an.InModule(h) && h.Blocks != nil {
+					for i, a := range c.Call.Args {
+						if a != elem || i >= len(h.Params) {
+							continue
+						}
+						for _, hb := range h.Blocks {
+							for _, hin := range hb.Instrs {
+								if u, ok := hin.(*ssa.UnOp); ok {
+									if fa, ok := u.X.(*ssa.FieldAddr); ok && fa.X == ssa.Value(h.Params[i]) {
+										got[fieldNameOf(fa)] = true
+									}
+								}
+							}
+						}
+					}
+				}
+			}
+		}
+		for k := range got {
+			if k != "parent" && k != "name" && k != "index" {
+				delete(got, k)
 			}
 		}
 		r.Check(len(got) == 3, short(f)+"|site-slot", s.Pos(), "the slot assigned is designated by this match's parent, name and index (found %s)", joinSorted(got))
